@@ -131,6 +131,78 @@ VARIANTS["C08"] = [
 ]
 VARIANTS["C08"] = [v for v in VARIANTS["C08"] if v["name"] != "neighbors-pops-self"]
 
+# --------------------------------------------------------------------------- C04
+VARIANTS["C04"] = [
+    M("hg-add_edge-truthiness-guard", HG, "        if idx is not None:  # set self._edge_uid correctly\n            update_uid_counter(self, idx)", "        if idx:  # set self._edge_uid correctly\n            update_uid_counter(self, idx)", "U-BUMP", "Hypergraph.add_edge"),
+    M("dh-add_edge-no-bump", DH, "        if idx is not None:  # set self._edge_uid correctly\n            update_uid_counter(self, idx)", "        pass", "U-BUMP", "DiHypergraph.add_edge"),
+    M(
+        "hg-bulk-bump-after-loop", HG,
+        "                if format2 or format4:\n                    update_uid_counter(self, idx)\n\n            try:\n                e = next(new_edges)\n            except StopIteration:\n                break",
+        "            try:\n                e = next(new_edges)\n            except StopIteration:\n                if format2 or format4:\n                    update_uid_counter(self, idx)\n                break",
+        "U-BUMP", "Hypergraph.add_edges_from",
+    ),
+    M("hg-bulk-bump-only-format2", HG, "                if format2 or format4:\n                    update_uid_counter(self, idx)", "                if format2:\n                    update_uid_counter(self, idx)", "U-BUMP", "Hypergraph.add_edges_from"),
+    M("hg-dict-format-no-bump", HG, "                self._edge_attr[idx] = self._edge_attr_dict_factory()\n\n                update_uid_counter(self, idx)\n", "                self._edge_attr[idx] = self._edge_attr_dict_factory()\n", "U-BUMP", "Hypergraph.add_edges_from"),
+    M("hg-add_node_to_edge-no-bump", HG, "            self._edge_attr[edge] = {}\n            update_uid_counter(self, edge)\n", "            self._edge_attr[edge] = {}\n", "U-BUMP", "add_node_to_edge"),
+    M("sc-add_simplex-no-bump", SC, "        # set self._edge_uid correctly\n        update_uid_counter(self, idx)\n", "", "U-BUMP", "add_simplex"),
+    M("sc-bulk-no-bump", SC, "            self._edge_attr[idx].update(eattr)\n\n            update_uid_counter(self, idx)\n", "            self._edge_attr[idx].update(eattr)\n", "U-BUMP", "add_simplices_from"),
+    M(
+        "hg-add_edge-guard-dropped", HG,
+        "        if idx in self._edge.keys():  # check that uid is not present yet\n            warn(f\"uid {idx} already exists, cannot add edge {members}\")\n            return\n\n        uid = next",
+        "        uid = next", "U-GUARD", "Hypergraph.add_edge",
+    ),
+    M(
+        "dh-dict-guard-falls-through", DH,
+        "                if idx in self._edge.keys():  # check that uid is not present yet\n                    warn(f\"uid {idx} already exists, cannot add edge {members}.\")\n                    continue\n\n                if isinstance(members, (tuple, list)):",
+        "                if idx in self._edge.keys():  # check that uid is not present yet\n                    warn(f\"uid {idx} already exists, cannot add edge {members}.\")\n\n                if isinstance(members, (tuple, list)):",
+        "U-GUARD", "DiHypergraph.add_edges_from",
+    ),
+    M(
+        "hg-guard-present-branch-writes", HG,
+        "            warn(f\"uid {idx} already exists, cannot add edge {members}\")\n            return\n",
+        "            warn(f\"uid {idx} already exists, cannot add edge {members}\")\n            self._edge_attr[idx].update(attr)\n            return\n",
+        "U-GUARD", "Hypergraph.add_edge",
+    ),
+    M("hg-copy-fresh-counter", HG, "        cp._edge_uid = copy(self._edge_uid)\n", "        cp._edge_uid = count()\n", "U-OWN", "copy"),
+    M("sc-copy-no-counter", SC, "        cp._edge_uid = copy(self._edge_uid)\n", "", "U-COPY", "copy"),
+    M("getstate-drops-counter", DH, "            \"_edge_uid\": self._edge_uid,\n", "", "U-COPY", "__getstate__"),
+    M("uid-func-loses-consumed", UT, "    else:\n        start = uid\n    H._edge_uid", "    else:\n        start = uid - 1\n    H._edge_uid", "U-FUNC"),
+    M("uid-func-strict-compare", UT, "        and uid <= idx\n", "        and uid < idx\n", "U-FUNC"),
+    M("uid-func-type-test", UT, "        and float(idx).is_integer()\n", "        and isinstance(idx, int)\n", "U-FUNC"),
+    M("external-edge-writer", UT, "    net.clear(remove_net_attr=False)\n", "    net.clear(remove_net_attr=False)\n    for e in edges:\n        net._edge[edge_dict[e]] = set()\n        net._edge_attr[edge_dict[e]] = {}\n", "U-ENC", "convert_labels_to_integers"),
+    M("external-counter-reset", "xgi/generators/classic.py", "def empty_hypergraph(create_using=None, default=None):", "def _reset_counter(H):\n    from itertools import count\n\n    H._edge_uid = count()\n\n\ndef empty_hypergraph(create_using=None, default=None):", "U-OWN", "_reset_counter"),
+    R("hg-add_edge-hoist-uid", HG, "        uid = next(self._edge_uid) if idx is None else idx\n\n        self._edge[uid] = set()", "        if idx is None:\n            uid = next(self._edge_uid)\n        else:\n            uid = idx\n\n        self._edge[uid] = set()"),
+    R("hg-add_edge-rename-uid", HG, "        uid = next(self._edge_uid) if idx is None else idx\n", "        uid = idx if idx is not None else next(self._edge_uid)\n"),
+    R("dh-guard-without-keys-call", DH, "        if idx in self._edge.keys():  # check that uid is not present yet\n            warn(f\"uid {idx} already exists, cannot add edge {members}\")\n            return", "        if idx in self._edge:  # check that uid is not present yet\n            warn(f\"uid {idx} already exists, cannot add edge {members}\")\n            return"),
+    R("uid-func-deepcopy-in-copy", HG, "        cp._edge_uid = copy(self._edge_uid)\n", "        cp._edge_uid = deepcopy(self._edge_uid)\n"),
+]
+
+# --------------------------------------------------------------------------- C17
+RND = "xgi/generators/random.py"
+UNI = "xgi/generators/uniform.py"
+SCG = "xgi/generators/simplicial_complexes.py"
+LAY = "xgi/drawing/layout.py"
+VARIANTS["C17"] = [
+    M("random_hypergraph-np-draw", RND, "            if random.random() <= p:\n                H.add_edge(edge)", "            if np.random.random() <= p:\n                H.add_edge(edge)", "D-FAM", "random_hypergraph"),
+    M("watts-strogatz-py-draw", RND, "        if np.random.random() < p:", "        if random.random() < p:", "D-FAM", "watts_strogatz_hypergraph"),
+    M("chung-lu-truthy-guard", RND, "    if seed is not None:\n        random.seed(seed)\n\n    # sort dictionary by degree in decreasing order\n    node_labels = [n for n, _ in sorted(k1.items(), key=lambda d: d[1], reverse=True)]\n    edge_labels = [m for m, _ in sorted(k2.items(), key=lambda d: d[1], reverse=True)]\n\n    m = len(k2)", "    if seed:\n        random.seed(seed)\n\n    # sort dictionary by degree in decreasing order\n    node_labels = [n for n, _ in sorted(k1.items(), key=lambda d: d[1], reverse=True)]\n    edge_labels = [m for m, _ in sorted(k2.items(), key=lambda d: d[1], reverse=True)]\n\n    m = len(k2)", "D-GUARD", "chung_lu_hypergraph"),
+    M("hppm-drops-seed", UNI, "    return uniform_HSBM(n, m, p, sizes, seed=seed)", "    return uniform_HSBM(n, m, p, sizes)", "D-FAM", "uniform_HPPM"),
+    M("spring-layout-drops-seed", LAY, "    pos = nx.spring_layout(G, seed=seed, k=k, **kwargs)\n    return pos", "    pos = nx.spring_layout(G, k=k, **kwargs)\n    return pos", "D-FAM", "pairwise_spring_layout"),
+    M("random-flag-complex-drops-seed", SCG, "    G = nx.fast_gnp_random_graph(N, p, seed=seed)\n\n    nodes = G.nodes()", "    G = nx.fast_gnp_random_graph(N, p)\n\n    nodes = G.nodes()", "D-FAM", "random_flag_complex"),
+    M("spectral-no-v0", "xgi/communities/spectral.py", "    evals, eigs = eigsh(L, k=k, which=\"SA\", v0=v0)", "    evals, eigs = eigsh(L, k=k, which=\"SA\")", "D-FAM", "spectral_clustering"),
+    M("kmeans-unseeded-rng", "xgi/communities/spectral.py", "    rng = np.random.default_rng(seed=seed)", "    rng = np.random.default_rng()", "D-FAM", "spectral_clustering"),
+    M("kmeans-seed-not-passed", "xgi/communities/spectral.py", "    _clusters = _kmeans(X, k, max_iter, seed)", "    _clusters = _kmeans(X, k, max_iter)", "D-FAM", "spectral_clustering"),
+    M(
+        "draw-before-seeding", "xgi/generators/randomizing.py", "    if seed is not None:\n        random.seed(seed)\n\n    if (order + 1) not in xgi.unique_edge_sizes(S):",
+        "    jitter = random.random()\n    if seed is not None:\n        random.seed(seed)\n\n    if (order + 1) not in xgi.unique_edge_sizes(S):", "D-DOM", "shuffle_hyperedges",
+    ),
+    M("random-layout-no-seeding", LAY, "    if seed is not None:\n        np.random.seed(seed)\n\n    H, center", "    H, center", "D-FAM", "random_layout"),
+    M("simplicial-seed-wrong-family", SCG, "    if seed is not None:\n        np.random.seed(seed)\n\n    if (np.any", "    if seed is not None:\n        random.seed(seed)\n\n    if (np.any", "D-FAM", "random_simplicial_complex"),
+    R("seeding-first-line", RND, "    warn(\"This method is much slower than fast_random_hypergraph\")\n    if seed is not None:\n        random.seed(seed)\n", "    if seed is not None:\n        random.seed(seed)\n    warn(\"This method is much slower than fast_random_hypergraph\")\n"),
+    R("unguarded-seeding", UNI, "    if seed is not None:\n        random.seed(seed)\n\n    if p_type == \"degree\":", "    random.seed(seed)\n\n    if p_type == \"degree\":"),
+    R("generator-object-instead-of-global", SCG, "    if seed is not None:\n        np.random.seed(seed)\n\n    if (np.any(np.array(ps) < 0)) or (np.any(np.array(ps) > 1)):\n        raise ValueError(\"All elements of ps must be between 0 and 1 included.\")\n\n    nodes = range(N)\n    simplices = []\n\n    for i, p in enumerate(ps):\n        d = i + 1  # order, ps[0] is prob of edges (d=1)\n\n        potential_simplices = combinations(nodes, d + 1)\n        n_comb = comb(N, d + 1, exact=True)\n        mask = np.random.random(size=n_comb) <= p", "    rng = np.random.default_rng(seed)\n\n    if (np.any(np.array(ps) < 0)) or (np.any(np.array(ps) > 1)):\n        raise ValueError(\"All elements of ps must be between 0 and 1 included.\")\n\n    nodes = range(N)\n    simplices = []\n\n    for i, p in enumerate(ps):\n        d = i + 1  # order, ps[0] is prob of edges (d=1)\n\n        potential_simplices = combinations(nodes, d + 1)\n        n_comb = comb(N, d + 1, exact=True)\n        mask = rng.random(size=n_comb) <= p"),
+]
+
 
 def variants_for(prop):
     return list(VARIANTS.get(prop, []))
